@@ -2,7 +2,7 @@
 from ._famprop import make
 
 run, replay = make(
-    "C03", "ref", ["C"],
+    "C03", "ref_both", ["C"],
     rule="Complete product of call shape {single, two calls in one expression, call as argument, caller variable as operand "
          "before/after the call, call in a loop, exported callee, direct recursion, mutual recursion} x parameter type {int, float, "
          "int4, float4, float3x3} x callee action on its parameter {nothing, assign, compound, ++/--, index write (constant and "
